@@ -71,7 +71,7 @@ func schema(v *vector) []event {
 				err = &panicErr{r}
 			}
 		}()
-		router, err = legacy.NewRouter(doc)
+		router, err = legacy.NewRouter(doc, openapi3.DisableExamplesValidation())
 	}()
 	if err != nil {
 		return fail("validate", err.Error())
